@@ -380,6 +380,10 @@ pub enum Mut {
     /// whose source block numbers climb by `step` per packet: every packet alone is plausible, the
     /// sequence as a whole makes the object's block table grow
     Staircase { at: u16, scheme: Scheme, e: u16, b: u32, blocks: u32, step: u32, n: u16 },
+    /// rewrite one attribute value in the XML of the session's OWN FDT instance(s) (single-packet
+    /// instances without content encoding; the EXT_FTI length is adjusted): every packet of the
+    /// session stays valid, only what the FDT says about the object becomes inconsistent with it
+    FdtAttr { name: u8, value: String },
 }
 
 #[derive(Debug, Clone, Serialize, Deserialize)]
@@ -784,6 +788,14 @@ pub fn apply_muts(base: &[Vec<u8>], muts: &[Mut]) -> Vec<Vec<u8>> {
                     seq.insert((t + k).min(seq.len()), p);
                 }
             }
+            Mut::FdtAttr { name, value } => {
+                let attr = FDT_ATTRS[*name as usize % FDT_ATTRS.len()];
+                for p in seq.iter_mut() {
+                    if let Some(q) = rewrite_fdt_attr(p, attr, value) {
+                        *p = q;
+                    }
+                }
+            }
             Mut::Foreign { at, fdt } => {
                 let t = idx(*at, n + 1);
                 let pk = hostile_fdt_packets(fdt, HOSTILE_TSI);
@@ -796,6 +808,52 @@ pub fn apply_muts(base: &[Vec<u8>], muts: &[Mut]) -> Vec<Vec<u8>> {
     seq
 }
 
+pub const FDT_ATTRS: [&str; 11] = [
+    "Content-Length",
+    "Transfer-Length",
+    "FEC-OTI-Maximum-Source-Block-Length",
+    "FEC-OTI-Encoding-Symbol-Length",
+    "FEC-OTI-Max-Number-of-Encoding-Symbols",
+    "FEC-OTI-FEC-Encoding-ID",
+    "FEC-OTI-Scheme-Specific-Info",
+    "Content-Encoding",
+    "Content-MD5",
+    "Expires",
+    "TOI",
+];
+
+/// a TOI 0 packet that holds a whole FDT instance in one symbol: the value of the first `name="..."`
+/// is replaced and the packet rebuilt with the reference encoder
+pub fn rewrite_fdt_attr(p: &[u8], name: &str, value: &str) -> Option<Vec<u8>> {
+    let d = pkt::decode(p, 0).ok()?;
+    if d.lct.toi != 0 || d.fdt.is_none() || d.pid.sbn != 0 || d.pid.esi != 0 {
+        return None;
+    }
+    let f = d.fti.as_ref()?;
+    if f.transfer_length as usize != d.payload.len() || d.cenc.map(|c| c != 0).unwrap_or(false) {
+        return None;
+    }
+    let xml = std::str::from_utf8(&d.payload).ok()?;
+    let key = format!(" {}=\"", name);
+    let start = xml.find(&key)? + key.len();
+    let end = start + xml[start..].find('"')?;
+    let clean: String = value.chars().filter(|c| *c != '"' && *c != '<' && *c != '&' && !c.is_control()).collect();
+    let new_xml = format!("{}{}{}", &xml[..start], clean, &xml[end..]);
+    let mut fti2 = f.clone();
+    fti2.transfer_length = new_xml.len() as u64;
+    let mut exts = d.lct.exts.clone();
+    for x in exts.iter_mut() {
+        if x.het == lct::EXT_FTI {
+            *x = fti::encode(&fti2);
+        }
+    }
+    let spec = LctSpec { version: d.lct.version, psi: d.lct.psi, res: d.lct.res, c: d.lct.c, cci: d.lct.cci, s: d.lct.s, o: d.lct.o, h: d.lct.h, tsi: d.lct.tsi, toi: 0, cp: d.lct.cp, close_session: d.lct.close_session, close_object: d.lct.close_object, exts };
+    let mut out = lct::build(&spec);
+    out.extend_from_slice(&fti::encode_payload_id(d.scheme, 0, &d.pid));
+    out.extend_from_slice(new_xml.as_bytes());
+    Some(out)
+}
+
 pub fn run_seq_case(c: &SeqCase) -> CaseResult {
     let cs = corpus_cached(c.session);
     let base: Vec<Vec<u8>> = cs.packets.iter().map(|p| p.1.clone()).collect();
@@ -805,6 +863,7 @@ pub fn run_seq_case(c: &SeqCase) -> CaseResult {
     let has_foreign = c.muts.iter().any(|m| matches!(m, Mut::Foreign { .. }));
     info.nt(out.parsed > 0 && !c.muts.is_empty());
     info.label_if(has_foreign, "foreign FDT");
+    info.label_if(c.muts.iter().any(|m| matches!(m, Mut::FdtAttr { .. })), "attribute of the session's own FDT rewritten");
     info.label_if(out.all_rejected, "all rejected");
     info.label_if(c.muts.iter().any(|m| matches!(m, Mut::Field { .. })), "field-aware edit");
     info.label(format!("muts={}", c.muts.len().min(6)));
@@ -944,6 +1003,7 @@ pub fn mut_strategy() -> BoxedStrategy<Mut> {
             prop_oneof![1 => 2u16..20, 2 => 20u16..320],
         )
             .prop_map(|(at, scheme, e, b, blocks, step, n)| Mut::Staircase { at, scheme, e, b, blocks, step, n }),
+        3 => (any::<u8>(), prop_oneof![4 => numberish(), 1 => b64ish(), 1 => prop_oneof![Just("gzip"), Just("zlib"), Just("deflate"), Just("null"), Just("")].prop_map(|v| v.to_string())]).prop_map(|(name, value)| Mut::FdtAttr { name, value }),
     ]
     .boxed()
 }
@@ -1065,7 +1125,7 @@ pub fn run(eng: &mut Engine) {
     eng.generated(
         PartCfg::new(
             "mutations",
-            "1-4 mutations of a corpus session: bit flips, byte sets, truncation, extension, splicing, duplication, reordering, field-aware edits through the reference codec (HDR_LEN, flag bits, HET/HEL, every FTI field, instance id, codepoint, SBN/ESI/SBL, B/A flags, EXT_TIME use bits, TOI/TSI, payload length), raw byte strings, foreign FDT instances (hostile attribute values, OTI attributes, malformed XML, 10^4 File elements) with lead and follow-up object packets, and staircases (2-320 packets of one hostile object whose block numbers climb by a fixed step); non-trivial = at least one packet of the sequence parses; distinct by case",
+            "1-4 mutations of a corpus session: bit flips, byte sets, truncation, extension, splicing, duplication, reordering, field-aware edits through the reference codec (HDR_LEN, flag bits, HET/HEL, every FTI field, instance id, codepoint, SBN/ESI/SBL, B/A flags, EXT_TIME use bits, TOI/TSI, payload length), raw byte strings, foreign FDT instances (hostile attribute values, OTI attributes, malformed XML, 10^4 File elements) with lead and follow-up object packets, staircases (2-320 packets of one hostile object whose block numbers climb by a fixed step) and attribute rewriting inside the session's own FDT instance (lengths, OTI attributes, encoding, MD5, Expires, TOI); non-trivial = at least one packet of the sequence parses; distinct by case",
             tier.pick(300_000, 6_000_000),
         )
         .hang_violates()
@@ -1177,7 +1237,7 @@ pub fn seq_case_from_bytes(data: &[u8]) -> SeqCase {
     let cache = [4usize << 10, 16 << 10, 64 << 10, 1 << 20][(b.u8() % 4) as usize];
     let mut muts = vec![];
     while b.left() > 0 && muts.len() < 8 {
-        let tag = b.u8() % 13;
+        let tag = b.u8() % 14;
         let m = match tag {
             0 => Mut::Flip { p: b.u16(), bit: b.u16() },
             1 => Mut::SetByte { p: b.u16(), off: b.u16(), val: b.u8() },
@@ -1192,6 +1252,15 @@ pub fn seq_case_from_bytes(data: &[u8]) -> SeqCase {
                 let at = b.u16();
                 let n = b.u8() as usize;
                 Mut::Raw { at, bytes: b.take(n) }
+            }
+            13 => {
+                let name = b.u8();
+                let value = match b.u8() % 3 {
+                    0 => b.u64().to_string(),
+                    1 => (b.u16() as u64).to_string(),
+                    _ => String::from_utf8_lossy(&b.take(6)).chars().filter(|c| !c.is_control()).collect(),
+                };
+                Mut::FdtAttr { name, value }
             }
             12 => Mut::Staircase {
                 at: b.u16(),
